@@ -180,6 +180,12 @@ func (f *frame) exec(ins ssa.Instruction, st *State) {
 	case *ssa.ChangeInterface:
 		x := f.val(i.X, st)
 		f.set(i, T{x.S, "Iface", i.Type()})
+		// the type system guarantees: a value of (non-empty) interface type I is nil or its dynamic type implements I
+		if it, ok := i.X.Type().Underlying().(*types.Interface); ok && it.NumMethods() > 0 {
+			if _, named := i.X.Type().(*types.Named); named {
+				f.e.assume(implies(st.cond, "(or (= (ityp "+x.S+") 0) "+f.hasType(x.S, i.X.Type())+")"))
+			}
+		}
 	case *ssa.ChangeType:
 		x := f.val(i.X, st)
 		f.set(i, T{x.S, x.Sort, i.Type()})
@@ -879,6 +885,10 @@ func (f *frame) eaTerm(arr, idx string) string {
 	e := f.e
 	e.declFun("ea", []string{"Int", "Int"}, "Int")
 	e.declFun("owner", []string{"Int"}, "Int")
+	// element addresses are injective in (array, index)
+	e.declFun("ea_idx", []string{"Int"}, "Int")
+	e.declFun("ea_arr", []string{"Int"}, "Int")
+	e.addDecl("ea-inj", "(assert (forall ((a Int) (i Int)) (! (and (= (ea_idx (ea a i)) i) (= (ea_arr (ea a i)) a)) :pattern ((ea a i)))))")
 	t := "(ea " + arr + " " + idx + ")"
 	if !strings.Contains(t, "!q") {
 		e.addDecl("eafact@"+t, "(assert (and (not (= "+t+" 0)) (= (owner "+t+") (owner "+arr+"))))")
